@@ -12,6 +12,9 @@ pub use parser::Parser;
 use ref_no_context::RefNoContext;
 pub use resolver::Resolver;
 
+#[cfg(feature = "verif")]
+pub use peephole::verif_peephole;
+
 use crate::{
   byte_code::{CaptureIndex, Label, SymbolicByteCode},
   cache::CacheIdEmitter,
